@@ -123,6 +123,14 @@ def main(tier):
         for run in sruns:
             if not run[-1]["agreement"]:
                 v.violation("sim:" + run[0]["script"], "honest replicas committed different blocks on a behaviour of the guarded spec", {"trace": run})
+        # 3b. the same scripts in a world where the values share one block and differ in their certificate results only
+        #     (a value is the pair (block, results): agreement must not depend on the blocks being different)
+        same_runs, _ = cc.replay(bftsim, scripts + sscripts, work, "sameblock", env={"BFTSIM_SAMEBLOCK": "1"})
+        same_bad = 0
+        for run in same_runs:
+            if not run[-1]["agreement"]:
+                same_bad += 1
+                v.violation("results-only:" + run[0]["script"].split("-")[0], "honest replicas committed the same block with different certificate results (script %s)" % run[0]["script"], {"trace": run})
         # 4. trace validation (real states vs spec), attacks and simulations together
         allp = sim_trace
         accepted, consumed, total, tr = validate(work, allp, "all")
@@ -177,7 +185,7 @@ def main(tier):
             "constants": {k: consts[k] for k in ("MaxRound", "MaxRH", "LeaderChoices", "Honest", "Byz", "Values")},
             "traces_validated_against_impl": len(runs) + len(sruns) if accepted else 0,
             "trace_lines": total, "trace_lines_accepted": consumed,
-            "attack_scripts_replayed": len(runs), "attack_results": attack_results,
+            "attack_scripts_replayed": len(runs), "attack_results": attack_results, "scripts_replayed_with_results_only_values": len(same_runs),
             "behaviours_replayed": len(sruns), "behaviours_with_commit": commits, "behaviours_infeasible": len(infeasible),
             "simulation": sim_stats, "coverage_by_action": {k: list(vv) for k, vv in cov.items()},
             "binding_selftest": selftest, "guards_missing_in_code": missing_guards, "model_divergences": v.divergences,
